@@ -145,7 +145,12 @@ func CompileSource(key, src string, o *compiler.Options) *Compiled {
 	}
 	file := filepath.Join(dir, key+".go")
 	if old, err := os.ReadFile(file); err != nil || string(old) != src {
-		if err := os.WriteFile(file, []byte(src), 0o644); err != nil {
+		// atomically: another check may be compiling the same probe right now
+		tmp := fmt.Sprintf("%s.%d.tmp", file, os.Getpid())
+		if err := os.WriteFile(tmp, []byte(src), 0o644); err != nil {
+			hpanic("probe file: %v", err)
+		}
+		if err := os.Rename(tmp, file); err != nil {
 			hpanic("probe file: %v", err)
 		}
 	}
